@@ -41,6 +41,7 @@ type c17Pkg struct {
 	MustHave    []string `json:"must_define,omitempty"`     // from the //go:build goose file
 	MustNotHave []string `json:"must_not_define,omitempty"` // from the //go:build !goose file
 	NotGooseSrc string   // path suffix of the !goose file
+	Shape       string   `json:"shape,omitempty"`
 }
 
 type c17Module struct {
@@ -1219,6 +1220,9 @@ func runC17(r *core.Run) (bool, string) {
 	if !c.runPrefixSiblings(r, rng.Fork("prefix-siblings")) {
 		return false, "cannot write the prefix-sibling module"
 	}
+	if !c.runFractions(r) {
+		return false, "cannot write the fraction module"
+	}
 	n := r.Evals()
 	if n < 30 {
 		return false, fmt.Sprintf("only %d invocations judged (floor 30)", n)
@@ -1226,7 +1230,7 @@ func runC17(r *core.Run) (bool, string) {
 	if r.GetCount("identical_files_checked") < 5 || r.GetCount("partial_files_judged") < 3 || r.GetCount("build_tag_packages_judged") < 3 {
 		return false, "too few write-if-changed / partial-output / build-tag observations"
 	}
-	if r.GetCount("build_constraint_files_selected_and_translated") < 10 || r.GetCount("build_constraint_pairs_judged") < 5 || r.GetCount("prefix_sibling_scenarios") < 5 {
+	if r.GetCount("build_constraint_files_selected_and_translated") < 10 || r.GetCount("build_constraint_pairs_judged") < 5 || r.GetCount("prefix_sibling_scenarios") < 5 || r.GetCount("fraction_scenarios") < 10 {
 		return false, "too few build-constraint / prefix-sibling observations"
 	}
 	return true, ""
